@@ -53,6 +53,8 @@ def forced(case):
 def run(ctx):
     obs = ctx.obs
     obs.extra['meta'] = META
+    from ..model import set_declaration_order_varies
+    set_declaration_order_varies(True)     # some datasets declare the x dimension before y
     from ..model.grids import set_wide_longitudes
     set_wide_longitudes(True)      # also datasets in the 0..360 convention / straddling 180 degrees
     total = ctx.n(1000, 15000)
@@ -132,6 +134,18 @@ def one_dataset(obs, rng, conv, kw, spec):
                 again = obs.call('wind_index', ems.wind_index, lin, grid_kind=token)
                 if not isinstance(again, Failed):
                     obs.expect(_same_native(again, want), 'wind_index(ravel_index(native)) == native')
+        # the deprecated alias unravel_index(linear_index, grid_kind) must agree with wind_index on every kind
+        import warnings
+        for n in sorted({0, size - 1, int(rng.integers(size))}):
+            with warnings.catch_warnings():
+                warnings.simplefilter('ignore')
+                alias = obs.call('unravel_index (deprecated alias)', ems.unravel_index, n, token)
+            if not isinstance(alias, Failed):
+                obs.cls('alias:unravel_index')
+                obs.expect(_same_native(alias, model.native(kname, n)), 'unravel_index(n, grid_kind) == wind_index(n, grid_kind=grid_kind)',
+                           lambda: {'kind': kname, 'n': n, 'got': repr(alias), 'want': model.native(kname, n)}, mech='alias-differs')
+        if 'x_first' in model.encoding:
+            obs.cls('dataset-declares-x-before-y')
         obs.expect(len(seen) == size, 'number of distinct native indexes equals grid size',
                    lambda: {'kind': kname, 'distinct': len(seen), 'size': size})
         # linear indexes outside the grid must be rejected
